@@ -672,6 +672,12 @@ class Background2D:
         interp_values = interp_func(yx_indices, n_neighbors=n_neighbors,
                                     power=power, eps=eps, reg=reg)
 
+        # IDW values are weighted means of the good values; keep round-off
+        # from moving them outside the range of those values (e.g., a
+        # constant mesh must stay exactly constant)
+        interp_values = np.clip(interp_values, np.min(data[mask]),
+                                np.max(data[mask]))
+
         interp_data = np.copy(data)  # copy to avoid modifying the input data
         interp_data[idx] = interp_values
 
